@@ -87,6 +87,101 @@ func badChainNotAdvanced(flat []float64, ends []int) float64 {
 	return s
 }
 
+func goodLastLocalLen(flat []float64, endss [][]int) float64 {
+	var s float64
+	offset := 0
+	for i := 0; i < len(endss); i++ {
+		ends := endss[i]
+		s += sum(flat, offset, ends)
+		n := len(ends)
+		if n <= 0 {
+			continue
+		}
+		offset = ends[n-1]
+	}
+	return s
+}
+
+type holder struct{ endss [][]int }
+
+func goodLastEarlyContinue(flat []float64, h *holder, i int) float64 {
+	if len(h.endss[i]) == 0 {
+		return 0
+	}
+	last := len(h.endss[i]) - 1
+	return flat[h.endss[i][last]]
+}
+
+func badLastWrongSliceGuarded(flat []float64, h *holder, i int) float64 {
+	if len(h.endss[i]) == 0 {
+		return 0
+	}
+	return flat[h.endss[i+1][len(h.endss[i+1])-1]]
+}
+
+func goodChainIndexLoop(flat []float64, ends []int) float64 {
+	var s float64
+	start := 0
+	for i := 0; i < len(ends); i++ {
+		end := ends[i]
+		if end != start {
+			s += sum1(flat, start, end)
+		}
+		start = end
+	}
+	return s
+}
+
+func goodChain3(flat []float64, endss [][]int) float64 {
+	var s float64
+	offset := 0
+	for _, ends := range endss {
+		s += sum(flat, offset, ends)
+		if n := len(ends); n > 0 {
+			offset = ends[n-1]
+		}
+	}
+	return s
+}
+
+func goodChain3Inlined(flat []float64, endss [][]int) float64 {
+	var s float64
+	offset := 0
+	for _, ends := range endss {
+		for _, end := range ends {
+			s += sum1(flat, offset, end)
+			offset = end
+		}
+	}
+	return s
+}
+
+func badChainConditional(flat []float64, ends []int) float64 {
+	var s float64
+	offset := 0
+	for _, end := range ends {
+		if end-offset < 4 {
+			continue
+		}
+		s += sum1(flat, offset, end)
+		offset = end
+	}
+	return s
+}
+
+func badChain3Reset(flat []float64, endss [][]int) float64 {
+	var s float64
+	offset := 0
+	for _, ends := range endss {
+		s += sum(flat, offset, ends)
+		offset = 0
+		if len(ends) > 0 {
+			offset = ends[len(ends)-1]
+		}
+	}
+	return s
+}
+
 func sum(flat []float64, offset int, ends []int) float64 {
 	var s float64
 	for _, end := range ends {
